@@ -1,8 +1,155 @@
-(* Property C17 - placeholder while the proofs are being written *)
-From Coq Require Import NArith List.
-From SdLfn Require Import LfnModel LfnSpec.
+(* Property C17 - long-file-name decoding is total, yields valid UTF-8 and the
+   right name; a listing reports a long name only for a complete, correctly
+   ordered fragment run whose checksum matches the short entry that follows it.
+   Only the property theorems are here, each closed by `exact`, pinned by
+   `Check`, followed by `Print Assumptions`.
+
+   Model: LfnModel.v (LfnBuffer, csum, lfn_contents, SeqState::update, the closure
+   and slot loop of iterate_dir_lfn, decode_utf16, encode_utf8).
+   Spec:  LfnSpec.v  (name_units, lossy, utf8, valid_utf8, complete_run, delivered).
+
+   Status: all five statements are proved at full strength.  The third one is
+   FALSE without its premise: an unpaired surrogate that is the first unit of the
+   whole name is dropped (defect D12); `KnownClass` is exactly that predicate,
+   C17_decodes_all gives the code's result on EVERY input, C17_decodes_exact says
+   exactly when it differs from the specification (it also depends on the buffer
+   size), and C17_known_refuted is the witness. *)
+From Coq Require Import NArith List Lia.
+From SdLfn Require Import LfnModel LfnSpec LfnUtf LfnEnc LfnBuf LfnDecodes LfnListing.
 Import ListNotations.
 Open Scope N_scope.
-Theorem C17_smoke : lfn_pushes 64 [[0xDE00;0x41;0;0;0;0;0;0;0;0;0;0;0]] = Ok [0x41].
-Proof. vm_compute. reflexivity. Qed.
-Print Assumptions C17_smoke.
+
+(* 1. No history of pushes and clears on a buffer over ANY storage panics, and
+   neither does as_str afterwards.  A pushed buffer may hold any values; only
+   its length (at most 13 - the Rust type is [u16; 13]) matters: the 14-slot
+   scratch vector is enough because the decoder yields at most one char per
+   unit and there are at most 13 + 1 (carried) units. *)
+Theorem C17_total : forall (storage : list N) (ops : list op),
+  Forall (fun o => match o with OpPush b => (length b <= 13)%nat | OpClear => True end) ops ->
+  exists st s, run_ops ops (lfn_new storage) = Ok st /\ lfn_as_str st = Ok s.
+Proof. exact lfn_total. Qed.
+
+(* 2. In every reachable state (new over any storage, then pushes of 13-unit
+   fragments of arbitrary 16-bit values and clears) as_str returns valid UTF-8;
+   the bytes inner[free..] are valid UTF-8 even while the overflow flag is set.
+   This is what `from_utf8_unchecked` needs. *)
+Theorem C17_valid_utf8 : forall st : lfn, reachable st ->
+  (exists s, lfn_as_str st = Ok s /\ valid_utf8 s = true) /\
+  valid_utf8 (skipn (free st) (inner st)) = true.
+Proof. exact lfn_valid_utf8. Qed.
+
+(* 3. Pushing the fragments last-first into a buffer of n bytes gives the UTF-8
+   encoding of the lossy decoding of the name when that fits in n bytes and ""
+   when it does not - unless the first unit of the whole name is an unpaired
+   surrogate. *)
+Theorem C17_decodes : forall (n : nat) (frags : list (list N)),
+  Forall fragment frags -> KnownClass frags = false ->
+  lfn_pushes n (rev frags) = Ok (lfn_spec n frags).
+Proof. exact lfn_decodes. Qed.
+
+(* the result on every input, known class included: there the leading unit is
+   simply missing *)
+Theorem C17_decodes_all : forall (n : nat) (frags : list (list N)),
+  Forall fragment frags ->
+  lfn_pushes n (rev frags) =
+  Ok (if KnownClass frags
+      then (let b := utf8 (lossy (tl (name_units frags))) in if Nat.leb (length b) n then b else [])
+      else lfn_spec n frags).
+Proof. exact lfn_decodes_all. Qed.
+
+(* the result equals the specification exactly outside KnownClassN *)
+Theorem C17_decodes_exact : forall (n : nat) (frags : list (list N)),
+  Forall fragment frags ->
+  (lfn_pushes n (rev frags) = Ok (lfn_spec n frags) <-> KnownClassN n frags = false).
+Proof. exact lfn_decodes_exact. Qed.
+
+(* D12: a single fragment DE00 0041 0000 FFFF.. in a 64-byte buffer shows "A",
+   the specification says U+FFFD "A" *)
+Theorem C17_known_refuted : exists (frags : list (list N)) (n : nat),
+  Forall fragment frags /\ KnownClass frags = true /\
+  lfn_pushes n (rev frags) = Ok [0x41] /\ lfn_spec n frags = [0xEF; 0xBF; 0xBD; 0x41].
+Proof. exact lfn_known_refuted. Qed.
+
+(* 4. Listing: the slots the walk delivers are `delivered slots`.  For every
+   delivered slot e that is not a long-name slot the callback is called once,
+   in order, with e's 11 name bytes; it gets Some name iff the delivered slots
+   directly before e end with a complete run (start slot numbered k = length,
+   1 <= k <= 19, then k-1, ..., 1, none of these flagged start) whose start
+   slot's checksum byte equals the checksum of e's short name; the name is then
+   what the buffer (of the caller's size) yields for that run's fragments.
+   st0 is the caller's buffer in ANY state. *)
+Theorem C17_listing : forall (slots : list (list N)) (st0 : lfn) (pre : list (list N)) (e : list N) (post : list (list N)),
+  Forall is_slot slots -> delivered slots = pre ++ e :: post -> ~ slot_is_lfn e ->
+  exists outs1 r outs2,
+    listing slots st0 = Ok (outs1 ++ (firstn 11 e, r) :: outs2) /\
+    length outs1 = length (entries pre) /\
+    (forall nm, r = Some nm <->
+       exists pre' run, pre = pre' ++ run /\ complete_run run /\
+         slot_csum (hd [] run) = spec_csum (firstn 11 e) /\
+         nm = lfn_actual (length (inner st0)) (run_frags run)).
+Proof. exact listing_reports. Qed.
+
+(* the name of a run outside the known class is the specification's *)
+Theorem C17_listing_name : forall (n : nat) (run : list (list N)),
+  Forall is_slot run ->
+  (KnownClassN n (run_frags run) = false -> lfn_actual n (run_frags run) = lfn_spec n (run_frags run)) /\
+  (KnownClassN n (run_frags run) = true -> lfn_actual n (run_frags run) <> lfn_spec n (run_frags run)).
+Proof. exact listing_name. Qed.
+
+(* the executable oracle of the correspondence check, spec_listing (LfnSpec.v: a
+   backwards scan from each entry), decides the declarative statement above: at
+   the position of every entry it holds None when the listing reports no long
+   name, and Some (lfn_spec.., flag) when it reports one - the same bytes when
+   the flag (KnownClassN of the run) is false, different bytes when it is true *)
+Theorem C17_listing_oracle : forall (slots : list (list N)) (st0 : lfn) (pre : list (list N)) (e : list N) (post : list (list N)),
+  Forall is_slot slots -> delivered slots = pre ++ e :: post -> ~ slot_is_lfn e ->
+  exists outs1 r outs2 sp1 o sp2,
+    listing slots st0 = Ok (outs1 ++ (firstn 11 e, r) :: outs2) /\
+    spec_listing (length (inner st0)) slots = sp1 ++ (firstn 11 e, o) :: sp2 /\
+    length outs1 = length sp1 /\
+    match o with
+    | None => r = None
+    | Some (s, known) => exists a, r = Some a /\ (known = false -> a = s) /\ (known = true -> a <> s)
+    end.
+Proof. exact listing_oracle. Qed.
+
+(* 5. Listing any list of slots - any number of byte lists with any content,
+   not even 32 bytes long - with the caller's buffer in any state never panics,
+   and reports exactly the delivered slots that are not long-name slots. *)
+Theorem C17_arbitrary_dir : forall (slots : list (list N)) (st0 : lfn),
+  exists outs, listing slots st0 = Ok outs /\ length outs = length (entries (delivered slots)).
+Proof. exact listing_total. Qed.
+
+(* the model's checksum is the FAT specification's on bytes *)
+Theorem C17_csum : forall name, Forall (fun b => b < 256) name -> csum name = spec_csum name.
+Proof. exact csum_spec. Qed.
+
+(* the model's UTF-16 decoder and UTF-8 encoder agree with the spec side *)
+Theorem C17_lossy_model : forall l, lossy l = map item_char (decode_utf16 l).
+Proof. exact lossy_chars. Qed.
+Theorem C17_utf8_model : forall c, c < 0x200000 -> encode_utf8 c = utf8_char c.
+Proof. exact encode_utf8_spec. Qed.
+
+(* Examples showing the hypotheses are satisfiable by non-trivial cases: LfnExamples.v *)
+
+Check (C17_total : forall storage ops,
+  Forall (fun o => match o with OpPush b => (length b <= 13)%nat | OpClear => True end) ops ->
+  exists st s, run_ops ops (lfn_new storage) = Ok st /\ lfn_as_str st = Ok s).
+Check (C17_decodes : forall n frags, Forall fragment frags -> KnownClass frags = false ->
+  lfn_pushes n (rev frags) = Ok (lfn_spec n frags)).
+Check (C17_arbitrary_dir : forall slots st0,
+  exists outs, listing slots st0 = Ok outs /\ length outs = length (entries (delivered slots))).
+
+Print Assumptions C17_total.
+Print Assumptions C17_valid_utf8.
+Print Assumptions C17_decodes.
+Print Assumptions C17_decodes_all.
+Print Assumptions C17_decodes_exact.
+Print Assumptions C17_known_refuted.
+Print Assumptions C17_listing.
+Print Assumptions C17_listing_name.
+Print Assumptions C17_listing_oracle.
+Print Assumptions C17_arbitrary_dir.
+Print Assumptions C17_csum.
+Print Assumptions C17_lossy_model.
+Print Assumptions C17_utf8_model.
